@@ -110,7 +110,7 @@ class Rewriter:
         j = 0
         L = len(src)
         while j < L:
-            if m.startswith("//", j):
+            if src.startswith("//", j) and m[j] == " ":
                 k = src.find("\n", j)
                 k = L if k < 0 else k
                 # drop trailing spaces before the comment
@@ -118,7 +118,7 @@ class Rewriter:
                     res.pop()
                 j = k
                 n += 1
-            elif m.startswith("/*", j):
+            elif src.startswith("/*", j) and m[j] == " ":
                 depth, k = 1, j + 2
                 while k < L and depth:
                     if src.startswith("/*", k):
@@ -389,8 +389,17 @@ def closure_body_end(m: str, start: int) -> int:
 
 
 def statement_start_of(t: str, m: str, anchor: str, what: str) -> int:
+    occ = None
+    mo = re.search(r"\s##(\d+)$", anchor)
+    if mo:
+        occ = int(mo.group(1))
+        anchor = anchor[:mo.start()]
     idxs = [mm.start() for mm in re.finditer(re.escape(anchor), t)]
     idxs = [i for i in idxs if m[i] == t[i]]  # not inside a comment/string
+    if occ is not None:
+        if len(idxs) < occ:
+            raise ScanError("lost anchor: %r occurrence %d in %s (%d matches)" % (anchor, occ, what, len(idxs)))
+        idxs = [idxs[occ - 1]]
     if len(idxs) != 1:
         raise ScanError("lost anchor: %r in %s (%d matches)" % (anchor, what, len(idxs)))
     i = idxs[0]
@@ -493,6 +502,16 @@ def apply_fn_spec(text: str, spec: FnSpec, what: str, lost=None):
         if anchor == "@return":
             for mm in re.finditer(r"(?m)^[ \t]*return\b", bm):
                 ins.append((mm.start(), g.rstrip() + "\n"))
+            continue
+        if anchor == "@tail":
+            # the tail expression: last line of the body before the closing brace (single-line tails only)
+            inner = body.rstrip()[:-1].rstrip()
+            ls = inner.rfind("\n") + 1
+            last = inner[ls:].strip()
+            if last.endswith(";") or last.endswith("}") or not last:
+                lost.append("lost anchor: @tail in %s" % what)
+                continue
+            ins.append((ls, g.rstrip() + "\n"))
             continue
         try:
             ls, _ = statement_start_of(body, bm, anchor, what)
